@@ -147,7 +147,8 @@ def run(ck, only=None):
             plans += [(t, ["parsed", "analysed"]) for t in [(0, 1, 2), (3, 4, 4), (2, 0, 2), (5, 5, 6), (1, 7, 1), (6, 6, 6)]]  # 3 threads x 3 segments: 1680
         else:
             pairs = [(0, 2), (3, 4), (2, 2), (1, 1), (5, 5), (6, 6), (1, 0), (4, 7)]
-            pairs = pairs[ck.seed % 2::2] + [(0, 2), (3, 4)] if ck.seed else pairs
+            if ck.seed:
+                pairs = list(dict.fromkeys(pairs[ck.seed % 2::2] + [(0, 2), (3, 4)]))
             g2 = ["libclang_loaded", "parsed", "analysed"]  # 4 segments each: C(8,4) = 70
             plans += [(p, g2) for p in pairs]
             plans += [((0, 2, 0), ["analysed"])]  # 3 threads x 2 segments: 90
